@@ -131,7 +131,13 @@ func parseLinkReferenceDefinition(block text.Reader, pc Context) (int, int) {
 	} else {
 		for i := 0; i < segments.Len(); i++ {
 			s := segments.At(i)
-			title = append(title, block.Value(s)...)
+			v := block.Value(s)
+			if i > 0 {
+				// the lines of a title are lines of a paragraph: their
+				// leading white space is not content
+				v = util.TrimLeftSpace(v)
+			}
+			title = append(title, v...)
 		}
 	}
 
